@@ -36,7 +36,9 @@ CHECKS = {
         "independent reference decoder (own wire codec + spec state machine) as oracle on every generated output",
         "Every byte string produced in the C01/C02 write scenarios is decoded by R, which shares no code with pyjelly or "
         "protobuf and enforces each clause of the property as a separate violation kind; R's decoding must equal the input. "
-        "A symmetric writer+reader mistake is therefore visible.",
+        "A symmetric writer+reader mistake is therefore visible. Also: namespace-declaration scenarios, eight streams that fill "
+        "and recycle 128..4096-entry tables, a sweep of frame lengths across the 2^7 / 2^14 / 2^21 length-prefix boundaries, and a "
+        "Hypothesis rule-based state machine over the public Stream API whose every prefix must be valid for R.",
         "Trusted: R is my transcription of the Jelly spec (DESIGN.md appendix A).",
         "DESIGN.md 2/C03",
     ),
@@ -46,7 +48,9 @@ CHECKS = {
         "Ground truth -> reference encoder E making every legal producer choice from a Hypothesis-drawn choice tape -> bytes "
         "(validated by R first) -> parse_jelly_flat / grouped / to_graph of both integrations must return the ground truth. "
         "Reaches decoder paths pyjelly's own writer never exercises (non-LRU eviction, odd IRI splits, explicit ids, early / "
-        "redundant entries, un-elided repeats, empty frames, repeated options).",
+        "redundant entries, un-elided repeats, empty frames, repeated options). Every case is also parsed in lock-step with the "
+        "previous case's stream, and an atheris coverage-guided differential campaign asserts that whatever R calls a valid "
+        "stream parses to R's events.",
         "Trusted: E and R (my reading of the spec); rdflib term construction.",
         "DESIGN.md 2/C04",
     ),
@@ -57,7 +61,8 @@ CHECKS = {
         "x reader table) of a real LookupEncoder coupled to a real LookupDecoder under key-renaming canonicalisation, for the "
         "name, prefix (empty prefix distinguished) and datatype rules, completed for sizes 1..7/6/7 (quick) and 1..8/7/8 "
         "(thorough): at those sizes the mirror invariant holds for every history. Larger sizes and the full TermEncoder -> "
-        "rows -> Decoder path are sampled by a RuleBasedStateMachine and long walks.",
+        "rows -> Decoder path (single terms, whole statements on tables 1..8 that must be refused or right, namespace "
+        "declarations) are sampled by a RuleBasedStateMachine and long walks.",
         "Trusted: the renaming symmetry (tables compare keys only for equality; only the empty prefix is special). "
         "No claim beyond the enumerated sizes other than the sampled evidence.",
         "DESIGN.md 2/C05",
@@ -114,7 +119,8 @@ CHECKS = {
         "exploration",
         "harness-owned generator interleavings and prior histories vs solo output; hash-seed subprocesses; threads",
         "2..5 serializer / parser generators are stepped in a Hypothesis-drawn interleaving after a drawn history of "
-        "abandoned / failed streams; each output must equal its solo run; the same inputs are serialised in subprocesses "
+        "abandoned / failed streams (configuration twins share one options object; statement-level drivers switch while rows "
+        "are pending); each output must equal its solo run computed in a pristine process; the same inputs are serialised in subprocesses "
         "with four PYTHONHASHSEED values (identical digests) and in real threads with a 1 microsecond switch interval.",
         "Thread schedules are not owned by the harness (supplementary evidence only).",
         "DESIGN.md 2/C12",
@@ -150,7 +156,8 @@ CHECKS = {
         "fault injection: one catalogued spec violation x every row position, confirmed invalid by the reference decoder",
         "For each generated valid stream every row position x every applicable violation class is injected (about 45 classes); "
         "only mutations that R rejects with the intended kind at the intended row are used; pyjelly's flat and grouped parsers "
-        "must raise and must not have yielded anything the rows before the violation do not denote.",
+        "must raise and must not have yielded anything the rows before the violation do not denote. An atheris differential "
+        "campaign asserts the same for arbitrary bytes that R rejects with a catalogued kind.",
         "Trusted: R's classification; assert statements active (no python -O).",
         "DESIGN.md 2/C16",
     ),
